@@ -169,7 +169,7 @@ pub(crate) fn memo_macro(args: TokenStream, item: TokenStream) -> TokenStream {
                 ::pico::macro_fns::memo_key(#fn_hash, module_path!(), line!(), column!());
             let derived_node_id = ::pico::DerivedNodeId::new(MEMO_KEY.into(), param_ids);
             #[cfg(isographlabs_isograph_verif)]
-            ::pico::verif::register_memo_identity(#fn_hash, concat!(module_path!(), "::", #fn_name));
+            ::pico::verif::register_memo_identity(MEMO_KEY, concat!(module_path!(), "::", #fn_name));
             let did_recalculate = ::pico::execute_memoized_function(
                 #db_arg,
                 derived_node_id,
